@@ -124,6 +124,75 @@ def prologue_check(d, tier, coq, build):
     return []
 
 
+_EXT_PRELUDE = """From Oras Require Import Base.Prelude Generated.GC01 Model.CopySpec Model.CopyTop Model.CopyExt.
+Local Open Scope nat_scope.
+Definition mkG (n : nat) (succs : list (list nat)) (fl ism : list bool) (dk : list nat) : graph :=
+  mkGraph n (fun x => nth x succs []) (fun x => nth x fl false) (fun x => nth x ism false)
+          (fun x => if Nat.ltb x n then nth x dk 0 else 1000000 + x).
+Definition xeval (g : graph) (c : cfg) (tgt : node) (d0 : list node) (tr : list event) :=
+  match xaccepts g c tgt d0 tr with
+  | None => None
+  | Some st => Some (returned st, tag st, present_nodes g (dst st))
+  end.
+"""
+
+
+def ext_check(d, tier, coq, build):
+    """ExtendedCopy cases (all callbacks set, successful): the recorded trace with TagB/TagE of the node put back is a run of
+    Model/CopyExt.xaccepts ending with the reference on the node and the destination content the acceptor computed"""
+    want = 150 if tier == "thorough" else 25
+    outs = {}
+    with open(os.path.join(d, "model.txt")) as f:
+        for l in f:
+            i, _, o = l.rstrip("\n").partition(" ")
+            outs[i] = o
+    goals = []
+    with open(os.path.join(d, "cases.txt")) as f:
+        for l in f:
+            if len(l) > 4000:
+                continue
+            i, _, c = l.rstrip("\n").partition(" ")
+            p = c.split(" ")
+            xn = [x for x in p if x.startswith("xn=")]
+            if not xn or len(p) < 9 or not p[2].endswith("/11111") or "CX" in p[7] or not outs.get(i, "").startswith("ACC ret=1"):
+                continue
+            n, k, root, c0, nodes, d0, trace = p[0], p[1], p[3], p[4], p[5], p[6], p[7]
+            node = xn[0][3:]
+            toks = trace.split(",")
+            toks = toks[:-1] + ["TB." + node, "TE." + node, toks[-1]]
+            evs = [_event(t) for t in toks]
+            if any(e is None for e in evs):
+                continue
+            succs, fl, ism, dk = [], [], [], []
+            for sp in nodes.split(";"):
+                a, b2, c2 = sp.split("/")
+                fl.append(_b("f" in a)); ism.append(_b("m" in a)); dk.append(b2); succs.append(_nats(c2))
+            roots = root.split("+")
+            kv = dict(x.split("=", 1) for x in outs[i].split(" ")[1:])
+            g = "(mkG %s [%s] [%s] [%s] [%s])" % (n, "; ".join(succs), "; ".join(fl), "; ".join(ism), "; ".join(dk))
+            cf = "(mkCfg (eff_K defaultConcurrency (%s)%%Z) MGraph %s false true %s %s)" % (k, roots[0], _nats(c0), _nats(",".join(roots[1:])))
+            goals.append((i, "xeval %s %s %s %s [%s] = Some (Some true, Some %s, %s)" % (g, cf, node, _nats(d0), "; ".join(evs), node, _nats(kv["dst"]))))
+            if len(goals) >= want:
+                break
+    vdir = os.path.join(build, "vm")
+    os.makedirs(vdir, exist_ok=True)
+    vf = os.path.join(vdir, "GC01_ext.v")
+    with open(vf, "w") as f:
+        f.write(_EXT_PRELUDE)
+        for i, g in goals:
+            f.write("\n(* %s *)\nGoal %s.\nProof. vm_compute. reflexivity. Qed.\n" % (i, g))
+    p = subprocess.run(["coqc", "-R", coq, "Oras", "-w", "-notation-overridden", vf], cwd=vdir, timeout=900,
+                       stdout=subprocess.PIPE, stderr=subprocess.STDOUT, text=True)
+    with open(os.path.join(d, "ext_check.txt"), "w") as f:
+        f.write("%d goals rc=%d\n%s" % (len(goals), p.returncode, p.stdout[-3000:]))
+    if p.returncode != 0:
+        return ["ExtendedCopy check: a recorded ExtendedCopy run (with its final Tag) is not a run of Model/CopyExt.xaccepts with the "
+                "expected result: %s" % p.stdout[-600:]]
+    if len(goals) < 3:
+        return ["ExtendedCopy check: only %d goals" % len(goals)]
+    return []
+
+
 def refs_check(d, tier, coq, build):
     """every reference string the destination was asked to set during a Copy is CopyTop.eff_ref srcRef dstRef"""
     want = 1500 if tier == "thorough" else 300
@@ -316,6 +385,6 @@ def vm_sample(gen, runfn="run_opt", imports=""):
         if len(goals) < min(want, 20):
             return ["in-Coq re-evaluation: only %d cases could be sampled" % len(goals)]
         if gen == "GC01":
-            return links_check(d, tier, coq, build) + prologue_check(d, tier, coq, build) + refs_check(d, tier, coq, build)
+            return links_check(d, tier, coq, build) + prologue_check(d, tier, coq, build) + refs_check(d, tier, coq, build) + ext_check(d, tier, coq, build)
         return []
     return hook
